@@ -10,6 +10,7 @@ SHORT_TRIGGER = 'none'
 REWRITE_TRIGGER = 'pair'
 WITHHOLD_TRIGGER = 'slow'
 REPLACED_CODE_BASE = 7000
+CONSTANT_CODE_BASE = 7500
 PUBLISHED_AS: Dict[str, str] = {}    # filled by the scenario module (alias -> name the function records)
 
 
@@ -54,6 +55,8 @@ def expected_element(element: Dict[str, Any], mw_kinds: List[str], handlers: Dic
                     err = {'code': REPLACED_CODE_BASE + int(hid[1:]), 'message': f'replaced-{hid}', 'data': R.ABSENT_DATA}
                 elif kind == 'annotate':
                     err = {'code': err['code'], 'message': err['message'], 'data': f'annotated-{hid}'}
+                elif kind == 'constant':
+                    err = {'code': CONSTANT_CODE_BASE + int(hid[1:]), 'message': f'constant-{hid}', 'data': R.ABSENT_DATA}
             reply = {'jsonrpc': '2.0', 'id': rid, 'error': err}
         else:
             reply = dict(reply, id=rid)
